@@ -53,6 +53,13 @@ CHECKS.update({
   note=CALLS_NOTE + " Emcee.sample / MiniPCN.sample epilogues are covered by the run-time audit only.", ref="DESIGN.md section 5 C17"),
 })
 
+CHECKS.update({
+ "C15": dict(technique="finite-domain Coq theorem (vm_compute over the whole 3240-point space of class x namespace x width x dtype spelling x field subset x target x target dtype, lifted with forallb_forall) about a model of the dtype/namespace conversion logic; exhaustive grid on the implementation; library behaviour probed as an oracle",
+  text="Theorem C15_all_pairs: for every point of the space, to_namespace / from_samples / to_numpy succeed, land in the target namespace with the target's own dtype object, keep every optional field and the float width (or the requested one), and the SMC result keeps the population's width. The bound is the statement; the same grid is executed on the implementation (values compared exactly) and the oracle table (which dtype objects each library's asarray accepts, default widths) is probed from the installed libraries each run.",
+  note="Trusted: Coq kernel + vm_compute; the hand model Model/Convert.v is tied to samples.py/utils.py by the exhaustive grid (model verdict must agree with the implementation grid) - a divergence on a single point breaks the correspondence; numpy/torch/jax asarray semantics enter as the probed oracle std_oracle. Proposal outputs consumed in any namespace are exercised by the sampler runs, not modelled.",
+  ref="DESIGN.md section 5 C15"),
+})
+
 PENDING_REASON = "check not built yet in this round (planned: DESIGN.md section 5); no claim is made"
 
 
